@@ -235,6 +235,6 @@ func init() {
 	suites["IDENT"] = func(g *G) { genIdentityAccessors(g, g.n(200, 5000)) }
 	suites["KAC"] = func(g *G) {
 		genCerts(g, g.n(300, 10000))
-		genIdentities(g, identOps, g.n(1500, 40000))
+		genIdentities(g, identOps, g.n(3000, 40000))
 	}
 }
